@@ -225,6 +225,10 @@ func c16Corpus() []*c16Case {
 		{Kind: "standard", Sub: "netconf", Auth: "none", Via: "impl", Mode: "peerclose", N: 16, Steps: []c16Step{{Op: "w", B: h("<hello/>]]>]]>")}, {Op: "s", B: h("<hello/>]]>]]>")}}},
 		{Kind: "system", Via: "impl", Mode: "close", N: 81, Initial: h(big[:8192]), Steps: []c16Step{{Op: "w", B: ff}, {Op: "w", B: h("\r\n\x03\x04\x11\x13\x1a\x1c\x7f")}}},
 		{Kind: "system", Via: "transport", Mode: "peerclose", N: 8192, Steps: []c16Step{{Op: "w", B: h(big[:8192*3+5])}}},
+		// ONE write larger than the pty and the peer absorb unread (a pasted configuration, a large
+		// rpc): it completes only while the transport keeps being read, and Close still gets through
+		{Kind: "system", Via: "transport", Mode: "close", N: 8192, Steps: []c16Step{{Op: "w", B: h(strings.Repeat(big[:4096], 25))}}},
+		{Kind: "system", Via: "impl", Mode: "close", N: 8192, Steps: []c16Step{{Op: "w", B: h(strings.Repeat(big[:4096], 70))}, {Op: "w", B: h("show version\n")}}},
 		// the netconf flavour of the system transport (its own open path): a read blocked on a silent peer must return on close
 		{Kind: "system", Sub: "netconf", Via: "impl", Mode: "close", N: 64},
 		{Kind: "system", Sub: "netconf", Via: "transport", Mode: "close", N: 8192},
@@ -724,6 +728,10 @@ func runC16Case(id string, c *c16Case) {
 		sz = strings.Join(sizes, ",")
 	}
 	cs.Line = fmt.Sprintf("c16 %s %s %s %s", mkind, ini, join(deliveries), sz)
+	if len(expect) > 60000 {
+		// a stream of hundreds of kilobytes: the direct oracle (the bytes themselves) stands alone
+		cs.Line = ""
+	}
 	if c.Probe != "" && cs.Oracle != "" {
 		// a probe that shows the OS path (ssh client, pty) altering the stream: the wrapper model has
 		// nothing to say about it, the oracle verdict stands alone
